@@ -113,7 +113,13 @@ func DisjunctPeriods
             == cadd(Ended(startTimePeriodsA, periodsA, len(periodsA), t), Ended(startTimePeriodsB, periodsB, len(periodsB), t))
     ensures total: Sum(result.2, len(result.2)) == cadd(Sum(periodsA, len(periodsA)), Sum(periodsB, len(periodsB)))
     ensures lens: forall k int :: 0 <= k && k < len(result.2) ==> result.2[k].Length >= 0
+    ensures amounts: (forall k int :: 0 <= k && k < len(periodsA) ==> cnonneg(periodsA[k].Amount))
+            && (forall k int :: 0 <= k && k < len(periodsB) ==> cnonneg(periodsB[k].Amount))
+            ==> (forall k int :: 0 <= k && k < len(result.2) ==> cnonneg(result.2[k].Amount))
     ensures count: len(result.2) <= len(periodsA) + len(periodsB)
+    loop 1,2,3 invariant amounts: (forall k int :: 0 <= k && k < len(periodsA) ==> cnonneg(periodsA[k].Amount))
+            && (forall k int :: 0 <= k && k < len(periodsB) ==> cnonneg(periodsB[k].Amount))
+            ==> (forall k int :: 0 <= k && k < len(periods) ==> cnonneg(periods[k].Amount))
     loop 1,2,3 invariant idx: 0 <= idxPeriodsA && idxPeriodsA <= lenPeriodsA && 0 <= idxPeriodsB && idxPeriodsB <= lenPeriodsB
             && lenPeriodsA == len(periodsA) && lenPeriodsB == len(periodsB) && len(periods) >= 0
             && len(periods) <= idxPeriodsA + idxPeriodsB
@@ -206,6 +212,34 @@ specfunc UnlockedAt(va CVA, t int) Coins = Read(time_unix(va.StartTime), va.Lock
 
 func (ClawbackVestingAccount).GetStartTime
     inline
+func (ClawbackVestingAccount).GetVestingPeriods
+    inline
+
+// ---- expected keepers of the vesting module (SDK implementations; assumed contracts)
+// stored accounts satisfy their representation invariant (what Validate() accepts)
+func (AccountKeeper).GetAccount
+    trusted
+    params ak, ctx, addr
+    ensures isdyn(result, *CVA) ==> dyn(result, *CVA) != nil && dyn(result, *CVA) < $alloc && ValidCVA(*dyn(result, *CVA))
+            && (*dyn(result, *CVA)).BaseVestingAccount < $alloc && (*dyn(result, *CVA)).BaseAccount != nil
+            && cnonneg((*dyn(result, *CVA)).DelegatedFree) && cnonneg((*dyn(result, *CVA)).DelegatedVesting)
+func (AccountKeeper).SetAccount
+    trusted
+    pure
+func (AccountKeeper).NewAccount
+    trusted
+    params ak, ctx, acc
+    pure
+    def acc
+func (BankKeeper).SendCoins
+    trusted
+    params bk, ctx, fromAddr, toAddr, amt
+    modifies bank_bal
+    ensures result == nil ==> bank_bal == bank_move(old(bank_bal), fromAddr, toAddr, amt)
+    ensures result != nil ==> bank_bal == old(bank_bal)
+func (BankKeeper).BlockedAddr
+    trusted
+    pure
 
 func (ClawbackVestingAccount).GetVestedCoins
     requires valid: ValidCVA(va)
@@ -268,7 +302,8 @@ func (ClawbackVestingAccount).ComputeClawback
     requires valid: ValidCVA(va)
     ensures amount: result.1 == csub(old(va.OriginalVesting), old(V)) && cnonneg(result.1)
     ensures original: na.OriginalVesting == old(V)
-    ensures start: na.StartTime == va.StartTime && na.BaseVestingAccount == va.BaseVestingAccount
+    ensures start: na.StartTime == va.StartTime && na.BaseVestingAccount == va.BaseVestingAccount && na.FunderAddress == va.FunderAddress
+    ensures frame: na.BaseAccount == old(va.BaseAccount) && na.DelegatedFree == old(va.DelegatedFree) && na.DelegatedVesting == old(va.DelegatedVesting)
     ensures vesting: len(na.VestingPeriods) <= len(va.VestingPeriods)
             && (forall k int :: 0 <= k && k < len(na.VestingPeriods) ==> na.VestingPeriods[k] == va.VestingPeriods[k])
             && Sum(na.VestingPeriods, len(na.VestingPeriods)) == old(V)
